@@ -220,7 +220,11 @@ def run(ctx):
     # structured unitaries that no short lattice program reaches: permutations, block-diagonal and diagonal matrices
     for d in (1, 2, 3, 4, 5):
         mats = [("identity", np.identity(d, dtype=complex))]
-        for p in itertools.islice(itertools.permutations(range(d)), 0, 8 if quick else 60):
+        allp = list(itertools.permutations(range(d)))
+        chosen = allp if (not quick or len(allp) <= 24) else allp[:6] + rng.sample(allp, 14)
+        if d == 5:      # the 5-cycles whose symmetrisation has two repeated singular values (0.809, 0.809, 0.309, 0.309)
+            chosen = list(chosen) + [(1, 3, 0, 4, 2), (2, 0, 4, 1, 3), (3, 4, 1, 2, 0), (4, 2, 1, 0, 3)]
+        for p in chosen:
             mats.append(("permutation", np.identity(d, dtype=complex)[list(p)]))
         mats.append(("diagonal", np.diag(np.exp(1j * np.pi / 4 * np.arange(d)))))
         if d >= 3:
